@@ -197,6 +197,18 @@ def r3(chk, prog):
         m = {f.short: f for f in prog.functions if f.cls == cls}
         if not {'writeCheck', 'written'} <= set(m):
             continue
+        # writeCheck() reserves what written() books: both look at the message text, or neither does (a policy that
+        # counts messages reserves one entry, it cannot book a text-dependent number of entries)
+        def _uses_text(g):
+            t = g.params[1]['name'] if len(g.params) > 1 and g.params[1].get('name') else None
+            return bool(t) and any(mentions_var(x, t) for x in g.walk())
+        if _uses_text(m['written']) != _uses_text(m['writeCheck']):
+            n += 1
+            who = 'written' if _uses_text(m['written']) else 'writeCheck'
+            chk.check(False, 'R3', m[who].name, 'writeCheck() and written() account the same quantity for a message',
+                      m[who].loc(), '%s() depends on the message text, its counterpart does not: the generation is '
+                      'closed before (or after) the configured limit is reached' % who)
+            continue
         for short in ('written', 'writeCheck'):
             f = m[short]
             text = f.params[1]['name'] if len(f.params) > 1 and f.params[1]['name'] else None
